@@ -55,6 +55,19 @@ claim('C20',
       'exhaustive channel/value-class enumeration at the configuration seam against a precedence-dict reference',
       'DESIGN.md#c20')
 
+claim('C09',
+      'Memoryless components: every configuration (64 Limiter configurations, SortedLimiter, LessThan, IsEqual, DeadBand, '
+      'RateLimiter, Switcher, Selector) on the full (u, lower, upper) lattice {-2..2}^3 incl. equality and inverted '
+      'limits; AntiWindup(/Rate): every two-call history over value x derivative sign x iteration lock x limit pairs; '
+      'DeadBandRT: every below/inside/above history to depth 5 (7); Delay(step/time)/Average/Derivative/Sampling: every '
+      'time-move history (repeat, +h, +2h, +h/2, rewind into the last step) of depth 5 (6) x every 3-level input '
+      'history, against ten-line reference definitions; plus every stored instant of every anti-windup state in 8 '
+      'simulations with binding limiters.',
+      'Trusts vmc/refs/discrete.py (transcribed from the class docstrings); rewinds restricted to what a rejected step '
+      'produces; Selector ties and Sampling after rewinds judged only weakly.',
+      'explicit-state exploration of input/time histories of the real component classes against reference semantics',
+      'DESIGN.md#c09')
+
 _PENDING = 'check not built yet in this round; planned per DESIGN.md (bounded exhaustive exploration applies)'
 for _p in ALL:
     if _p not in CLAIMED:
